@@ -3007,7 +3007,9 @@ def transform_pseudo_instructions(items, constants, labels):
                 new_items.append(inst)
                 log_conversion('transform_pseudo_instructions', item, inst)
 
-                inst = ITypeInstruction(item.line, 'addi', rd=rd, rs1=rd, imm=Lo(imm))
+                # same nuance as AUIPC + JALR: a %offset in the imm is relative
+                # to the first inst of the pair (the LUI, 4 bytes back)
+                inst = ITypeInstruction(item.line, 'addi', rd=rd, rs1=rd, imm=Lo(imm), is_auipc_jump=True)
         elif item.name == 'mv':
             rd, rs = item.args
             inst = ITypeInstruction(item.line, 'addi', rd=rd, rs1=rs, imm=Arithmetic('0'))
